@@ -333,6 +333,9 @@ class HistogramFillerBase:
                         # even be added to each other (nan != nan); all its rows go to nanflow anyway
                         q = (0.0, 0.0)
                     qdiff = (q[1] - q[0]) * (1.0 / 0.9) if q[1] > q[0] else 1.0
+                    while not q[0] - qdiff * 0.05 < q[1] + qdiff * 0.05:
+                        # the default width vanishes against a large constant value (a timestamp in ns)
+                        qdiff *= 2.0
                     bin_width = qdiff / float(n_bins)
                     bin_offset = q[0] - qdiff * 0.05
                     low = q[0] - qdiff * 0.05
